@@ -183,3 +183,238 @@ pub proof fn lemma_suffix_printable(t: Seq<char>)
         if k < t.len() { assert((t + escaped_marker())[k] == t[k]); }
     }
 }
+
+// ------------------------------------------------------------------ unicode mode
+pub open spec fn any_other(cs: Seq<char>) -> bool { exists|k: int| 0 <= k < cs.len() && is_other(#[trigger] cs[k]) }
+/// what escaped_printable_ascii returns (both branches)
+pub open spec fn printable_ascii_of(bs: Seq<u8>) -> Seq<char> { if exists_unprintable(bs) { enc_ascii(bs) } else { lossy(bs) } }
+/// one char, unicode mode: "other" chars (control, format, unassigned, private use, surrogate) are written as the escaped
+/// bytes of their UTF-8 encoding; a backslash is doubled iff anything in the string is escaped (dbl); all else is kept
+pub open spec fn enc_u_char(c: char, dbl: bool) -> Seq<char> {
+    if is_other(c) { printable_ascii_of(encode_utf8(seq![c])) }
+    else if dbl && c == '\\' { seq!['\\', '\\'] }
+    else { seq![c] }
+}
+pub open spec fn enc_u(cs: Seq<char>, dbl: bool) -> Seq<char> decreases cs.len() {
+    if cs.len() == 0 { Seq::empty() } else { enc_u(cs.drop_last(), dbl) + enc_u_char(cs.last(), dbl) }
+}
+
+// assumed facts about unicode_categories / UTF-8 (TRUSTED; validated exhaustively over all 1 112 064 scalar values in the thorough tier)
+/// printable ASCII (incl. the backslash) is never in a C* category
+#[verifier::external_body]
+pub proof fn axiom_printable_not_other(c: char) requires printable_char(c) ensures !is_other(c) {}
+/// the UTF-8 bytes of a C* char contain a byte outside 0x20..0x7e (it is an ASCII control/DEL or has bytes >= 0x80)
+#[verifier::external_body]
+pub proof fn axiom_other_bytes_unprintable(c: char) requires is_other(c) ensures exists_unprintable(encode_utf8(seq![c])) {}
+/// byte 0x0a occurs in UTF-8 only as the encoding of U+000A
+#[verifier::external_body]
+pub proof fn axiom_utf8_lf(c: char) requires c != '\n' ensures no_lf(encode_utf8(seq![c])) {}
+/// String::from_utf8_lossy on valid UTF-8 is the decoding
+#[verifier::external_body]
+pub proof fn axiom_lossy_valid(cs: Seq<char>) ensures lossy(encode_utf8(cs)) == cs {}
+
+pub open spec fn none_other(s: Seq<char>) -> bool { forall|k: int| 0 <= k < s.len() ==> !is_other(#[trigger] s[k]) }
+pub open spec fn no_lf_char(cs: Seq<char>) -> bool { forall|k: int| 0 <= k < cs.len() ==> cs[k] != '\n' }
+
+/// the token of char c after stage 1 (doubling on)
+pub open spec fn v_tok(c: char) -> Seq<char> {
+    if is_other(c) { u_all(encode_utf8(seq![c])) } else if c == '\\' { seq!['\\', '\\'] } else { seq![c] }
+}
+pub proof fn lemma_uchar_unesc(c: char, s: Seq<char>)
+    requires c != '\n',
+    ensures unesc(enc_u_char(c, true) + s) == v_tok(c) + unesc(s),
+{
+    if is_other(c) {
+        axiom_other_bytes_unprintable(c); axiom_utf8_lf(c);
+        lemma_all_unesc(encode_utf8(seq![c]), s);
+    } else if c == '\\' {
+        let t = seq!['\\', '\\'] + s;
+        assert(t[0] == '\\' && t[1] == '\\'); assert(t.skip(2) =~= s);
+        assert(unesc(t) == unesc_pair('\\') + unesc(s));
+        assert(unesc_pair('\\') =~= seq!['\\', '\\']);
+    } else {
+        let t = seq![c] + s;
+        assert(t[0] == c); assert(t.skip(1) =~= s);
+    }
+}
+pub proof fn lemma_uchar_resolve(c: char, r: Seq<char>)
+    requires c != '\n',
+    ensures opt_eq(resolve(v_tok(c) + r), prepend(encode_utf8(seq![c]), resolve(r))),
+{
+    if is_other(c) {
+        axiom_utf8_lf(c);
+        lemma_all_resolve(encode_utf8(seq![c]), r);
+    } else if c == '\\' {
+        let t = seq!['\\', '\\'] + r;
+        assert(t[0] == '\\' && t[1] == '\\'); assert(t.skip(2) =~= r);
+        lemma_ascii_utf8('\\');
+        assert(resolve(t) == prepend(seq![92u8], resolve(r)));
+    } else {
+        let t = seq![c] + r;
+        assert(t[0] == c); assert(t.skip(1) =~= r);
+        assert(resolve(t) == prepend(encode_utf8(seq![c]), resolve(r)));
+    }
+}
+pub open spec fn v_all(cs: Seq<char>) -> Seq<char> decreases cs.len() {
+    if cs.len() == 0 { Seq::empty() } else { v_all(cs.drop_last()) + v_tok(cs.last()) }
+}
+proof fn lemma_no_lf_char_init(cs: Seq<char>) requires no_lf_char(cs), cs.len() > 0 ensures no_lf_char(cs.drop_last()), cs.last() != '\n' {
+    assert forall|k: int| 0 <= k < cs.drop_last().len() implies cs.drop_last()[k] != '\n' by { assert(cs.drop_last()[k] == cs[k]); }
+}
+pub proof fn lemma_uall_unesc(cs: Seq<char>, s: Seq<char>)
+    requires no_lf_char(cs),
+    ensures unesc(enc_u(cs, true) + s) == v_all(cs) + unesc(s),
+    decreases cs.len()
+{
+    if cs.len() == 0 {
+        assert(enc_u(cs, true) + s =~= s); assert(v_all(cs) + unesc(s) =~= unesc(s));
+    } else {
+        let init = cs.drop_last(); let c = cs.last();
+        lemma_no_lf_char_init(cs);
+        lemma_uall_unesc(init, enc_u_char(c, true) + s);
+        lemma_uchar_unesc(c, s);
+        assert(enc_u(cs, true) + s =~= enc_u(init, true) + (enc_u_char(c, true) + s));
+        assert(v_all(init) + (v_tok(c) + unesc(s)) =~= v_all(cs) + unesc(s));
+    }
+}
+pub proof fn lemma_uall_resolve(cs: Seq<char>, r: Seq<char>)
+    requires no_lf_char(cs),
+    ensures opt_eq(resolve(v_all(cs) + r), prepend(encode_utf8(cs), resolve(r))),
+    decreases cs.len()
+{
+    if cs.len() == 0 {
+        assert(v_all(cs) + r =~= r);
+        assert(cs =~= Seq::<char>::empty());
+        assert(encode_utf8(Seq::<char>::empty()) =~= Seq::<u8>::empty()) by { encode_utf8_concat(Seq::<char>::empty(), Seq::<char>::empty()); assert(Seq::<char>::empty() + Seq::<char>::empty() =~= Seq::<char>::empty()); }
+        match resolve(r) { Some(t) => { assert(encode_utf8(cs) + t =~= t); } None => {} }
+    } else {
+        let init = cs.drop_last(); let c = cs.last();
+        lemma_no_lf_char_init(cs);
+        lemma_uall_resolve(init, v_tok(c) + r);
+        lemma_uchar_resolve(c, r);
+        assert(v_all(cs) + r =~= v_all(init) + (v_tok(c) + r));
+        encode_utf8_concat(init, seq![c]);
+        assert(init + seq![c] =~= cs);
+        match resolve(r) {
+            Some(t) => { assert(encode_utf8(init) + (encode_utf8(seq![c]) + t) =~= encode_utf8(cs) + t); }
+            None => {}
+        }
+    }
+}
+/// C11 (lossless, unicode mode, something is escaped): decodes to exactly the UTF-8 bytes of the line
+pub proof fn lemma_roundtrip_unicode(cs: Seq<char>)
+    requires no_lf_char(cs),
+    ensures opt_eq(decode(enc_u(cs, true)), Some(encode_utf8(cs))),
+{
+    lemma_uall_unesc(cs, Seq::empty());
+    assert(enc_u(cs, true) + Seq::<char>::empty() =~= enc_u(cs, true));
+    assert(unesc(Seq::<char>::empty()) =~= Seq::<char>::empty());
+    assert(v_all(cs) + Seq::<char>::empty() =~= v_all(cs));
+    lemma_uall_resolve(cs, Seq::empty());
+    assert(encode_utf8(cs) + Seq::<u8>::empty() =~= encode_utf8(cs));
+}
+/// nothing written in unicode mode is a control / format / unassigned code point
+pub proof fn lemma_enc_u_none_other(cs: Seq<char>, dbl: bool) ensures none_other(enc_u(cs, dbl)) decreases cs.len() {
+    if cs.len() > 0 {
+        let c = cs.last();
+        lemma_enc_u_none_other(cs.drop_last(), dbl);
+        let tok = enc_u_char(c, dbl);
+        assert(none_other(tok)) by {
+            if is_other(c) {
+                axiom_other_bytes_unprintable(c);
+                lemma_enc_ascii_printable(encode_utf8(seq![c]));
+                assert forall|k: int| 0 <= k < tok.len() implies !is_other(#[trigger] tok[k]) by { axiom_printable_not_other(tok[k]); }
+            } else if dbl && c == '\\' {
+                axiom_printable_not_other('\\');
+            }
+        }
+        assert forall|k: int| 0 <= k < enc_u(cs, dbl).len() implies !is_other(#[trigger] enc_u(cs, dbl)[k]) by {
+            let a = enc_u(cs.drop_last(), dbl);
+            if k < a.len() { assert(enc_u(cs, dbl)[k] == a[k]); } else { assert(enc_u(cs, dbl)[k] == tok[k - a.len()]); }
+        }
+    }
+}
+/// without any "other" char nothing is rewritten (dbl is false then)
+pub proof fn lemma_enc_u_identity(cs: Seq<char>) requires !any_other(cs) ensures enc_u(cs, false) =~= cs decreases cs.len() {
+    if cs.len() > 0 {
+        assert(!any_other(cs.drop_last())) by {
+            if any_other(cs.drop_last()) { let k = choose|k: int| 0 <= k < cs.drop_last().len() && is_other(#[trigger] cs.drop_last()[k]); assert(cs[k] == cs.drop_last()[k]); }
+        }
+        lemma_enc_u_identity(cs.drop_last());
+        assert(!is_other(cs.last())) by { if is_other(cs.last()) { assert(is_other(cs[cs.len() - 1])); } }
+        assert(cs.drop_last() + seq![cs.last()] =~= cs);
+    }
+}
+
+pub proof fn lemma_marker_none_other(t: Seq<char>)
+    requires none_other(t),
+    ensures none_other(t + escaped_marker()),
+{
+    assert forall|k: int| 0 <= k < (t + escaped_marker()).len() implies !is_other(#[trigger] (t + escaped_marker())[k]) by {
+        if k < t.len() { assert((t + escaped_marker())[k] == t[k]); }
+        else { let c = escaped_marker()[k - t.len()]; assert((t + escaped_marker())[k] == c); assert(printable_char(c)); axiom_printable_not_other(c); }
+    }
+}
+proof fn lemma_printable_none_other(t: Seq<char>) requires all_printable(t) ensures none_other(t) {
+    assert forall|k: int| 0 <= k < t.len() implies !is_other(#[trigger] t[k]) by { axiom_printable_not_other(t[k]); }
+}
+proof fn lemma_lf_chars(cs: Seq<char>)
+    requires no_lf(encode_utf8(cs)),
+    ensures no_lf_char(cs),
+    decreases cs.len()
+{
+    if cs.len() > 0 {
+        let init = cs.drop_last(); let c = cs.last();
+        encode_utf8_concat(init, seq![c]);
+        assert(init + seq![c] =~= cs);
+        let a = encode_utf8(init); let b = encode_utf8(seq![c]);
+        assert(no_lf(a)) by { assert forall|k: int| 0 <= k < a.len() implies a[k] != 10u8 by { assert((a + b)[k] == a[k]); } }
+        lemma_lf_chars(init);
+        if c == '\n' {
+            lemma_ascii_utf8('\n');
+            assert((a + b)[a.len() as int] == b[0]);
+            assert(false);
+        }
+        assert forall|k: int| 0 <= k < cs.len() implies cs[k] != '\n' by { if k < init.len() { assert(cs[k] == init[k]); } }
+    }
+}
+/// everything the two branches of escaped_expectation_unicode can return, given what its callees return
+pub proof fn lemma_unicode_expectation(bs: Seq<u8>, escaped: Seq<char>, encoded: Seq<char>)
+    requires
+        encoded == lossy(bs),
+        valid_utf8(bs) ==> exists|cs: Seq<char>| #[trigger] encode_utf8(cs) == bs && escaped == enc_u(cs, any_other(cs)),
+        !valid_utf8(bs) ==> escaped == printable_ascii_of(bs),
+    ensures
+        none_other(if encoded == escaped { encoded } else { escaped + escaped_marker() }),
+        no_lf(bs) ==> written_for(if encoded == escaped { encoded } else { escaped + escaped_marker() }, bs),
+{
+    if valid_utf8(bs) {
+        let cs = choose|cs: Seq<char>| #[trigger] encode_utf8(cs) == bs && escaped == enc_u(cs, any_other(cs));
+        axiom_lossy_valid(cs);
+        assert(encoded == cs);
+        lemma_enc_u_none_other(cs, any_other(cs));
+        lemma_marker_none_other(escaped);
+        if !any_other(cs) {
+            lemma_enc_u_identity(cs);
+            assert(escaped == cs);
+        } else {
+            // the plain text contains an "other" char, the escaped one does not: they differ
+            let k = choose|k: int| 0 <= k < cs.len() && is_other(#[trigger] cs[k]);
+            if encoded == escaped { assert(!is_other(escaped[k])); assert(false); }
+            if no_lf(bs) { lemma_lf_chars(cs); lemma_roundtrip_unicode(cs); }
+        }
+    } else {
+        // not UTF-8: some byte is >= 0x80, so the ascii escaper takes over
+        if !exists_unprintable(bs) {
+            assert forall|k: int| 0 <= k < bs.len() implies bs[k] < 0x80 by { assert(printable_ascii(bs[k])); }
+            lemma_plain_is_line(bs);
+            encode_utf8_valid_utf8(ascii_chars(bs));
+            assert(false);
+        }
+        axiom_lossy_unprintable(bs);
+        lemma_enc_ascii_printable(bs);
+        lemma_printable_none_other(enc_ascii(bs));
+        lemma_marker_none_other(escaped);
+        if no_lf(bs) { lemma_roundtrip_ascii(bs); }
+    }
+}
